@@ -630,7 +630,16 @@ class ThreadEmitter:
         raise NotImplementedError('instruction %s in %s' % (op, f.name))
 
     def race_hook(self, inst, I, x, is_write):
-        pass
+        """happens-before race check on plain accesses to shared (non-stack) cells (runtime: -DVF_HB)"""
+        if not self.G.cfg.get('hb'):
+            return
+        G = self.G
+        if x.c is not None:
+            for o in G.objs:
+                if o.base <= x.c < o.base + max(o.size, 1):
+                    if o.kind == 'stack' or o.immutable or o.kind == 'tls':
+                        return
+        self.emit('%s(%s);' % ('VF_PLAIN_WR' if is_write else 'VF_PLAIN_RD', x.s))
 
     def sx(self, e, bits):
         if bits in (8, 16, 32, 64):
@@ -644,6 +653,16 @@ class ThreadEmitter:
         if a.c is not None and b.c is not None and op in ('add', 'sub', 'and', 'or', 'xor', 'mul'):
             v = {'add': a.c + b.c, 'sub': a.c - b.c, 'and': a.c & b.c, 'or': a.c | b.c, 'xor': a.c ^ b.c, 'mul': a.c * b.c}[op]
             return X.const(v, bits)
+        if op == 'and' and ((a.c == 0) or (b.c == 0)):
+            return X.const(0, bits)
+        if op == 'and' and (a.c == m or b.c == m):
+            return b if a.c == m else a
+        if op == 'or' and ((a.c == m) or (b.c == m)):
+            return X.const(m, bits)
+        if op in ('or', 'xor', 'add') and (a.c == 0 or b.c == 0):
+            return b if a.c == 0 else a
+        if op == 'mul' and (a.c == 0 or b.c == 0):
+            return X.const(0, bits)
         if a.c is not None and b.c is not None and op in ('udiv', 'urem') and b.c != 0:
             return X.const(a.c // b.c if op == 'udiv' else a.c % b.c, bits)
         if a.c is not None and b.c is not None and op in ('shl', 'lshr') and b.c < bits:
@@ -832,8 +851,9 @@ class ThreadEmitter:
             g = M.funcs.get(n)
             if g is None or not g.defined:
                 raise NotImplementedError('call to undefined external %s from %s' % (n, f.name))
-            if self.excluded(n):
+            if self.excluded(n) or [f.name, n] in G.cfg.get('exclude_calls', []):
                 self.emit('VF_BAD_ACCESS(0, "call to a function excluded from this scenario (asserted unreachable): %s");' % n)
+                self.emit('VF_ASSUME(0);')
                 return
             cands = [(None, g)]
             fp = None
@@ -1049,7 +1069,11 @@ class ThreadEmitter:
             raise NotImplementedError('malloc in %s: no pool for type %s size %s' % (f.name, tyname, size.s))
         objs = G.pools[pool]
         lv = inst.regs[res][0]
-        s = 'if (vf_malloc_fails()) { %s = 0; } else ' % lv
+        failc = 'vf_malloc_fails()'
+        if G.cfg.get('malloc_fail_flag'):
+            fo = G.globs[(G.cfg['malloc_fail_flag'], None)]      # harness global: non-zero => this allocation fails
+            failc = '(%s != 0)' % fo.cname(0)
+        s = 'if (%s) { %s = 0; } else ' % (failc, lv)
         for i, o in enumerate(objs):
             s += 'if (vf_pool_next_%s == %d) { vf_pool_next_%s = %d; %s = 1; %s = %dUL; %s} else ' % (
                 san(pool), i, san(pool), i + 1, o.alive_name(), lv, o.base, ''.join('%s = 0; ' % o.cname(co) for (co, cs_, ck) in o.cells))
@@ -1118,6 +1142,20 @@ def generate(ll_path, cfg):
                 s += '  if (a == %dUL) return %s;\n' % (o.base + b, o.cname(b))
     s += '  return 0;\n}'
     out.append(s)
+    if cfg.get('hb'):
+        ids = []
+        for o in G.objs:
+            if o.kind in ('stack',) or o.immutable:
+                continue
+            for (off, sz, k) in o.cells:
+                ids.append((o.base + off, o.name, off))
+        out.append('#define VF_NCELL %d' % (len(ids) + 1))
+        s2 = 'static int vf_cell_id(uint64_t a) {\n'
+        for i, (addr, nm, off) in enumerate(ids):
+            s2 += '  if (a == %dUL) return %d; /* %s+%d */\n' % (addr, i + 1, nm.replace('*/', ''), off)
+        s2 += '  return 0;\n}'
+        out.append(s2)
+        out.append('#include "vf_hb.h"')
     out.append('static const char *vf_obj_name(int id) { switch (id) {')
     for o in G.objs:
         out.append('  case %d: return "%s";' % (o.id, o.name.replace('"', '')))
